@@ -133,6 +133,36 @@ def run_validators(job):
         except Exception as e:
             res.append({"error": err(e)})
     out["tc"] = res
+    # FlowModel.check_batch_size / prep_data: batch sizes that reach the DataLoaders
+    import numpy as np
+    from nessai.flowmodel.base import FlowModel
+    res = []
+    for c in job.get("cbs", []):
+        try:
+            res.append({"b": int(FlowModel.check_batch_size(np.zeros(c["n"]), c["bs"]))})
+        except Exception as e:
+            res.append({"error": err(e)})
+    out["cbs"] = res
+    res = []
+    for c in job.get("prep", []):
+        o = types.SimpleNamespace(initialised=True, check_batch_size=FlowModel.check_batch_size, device="cpu", _batch_size=None)
+        x = np.random.randn(c["n"], 2)
+        w = np.ones(c["n"]) if c["weights"] else None
+        try:
+            tr, va, b = FlowModel.prep_data(o, x, c["val_size"], c["batch_size"], weights=w, use_dataloader=c["use_dataloader"])
+            r = {"b": int(b), "dataloader": hasattr(tr, "batch_size")}
+            if r["dataloader"]:
+                r["train_bs"] = tr.batch_size
+                r["val_bs"] = va.batch_size
+                r["n_train"] = len(tr.dataset)
+                r["n_val"] = len(va.dataset)
+            else:
+                r["n_train"] = int(tr.shape[0])
+                r["n_val"] = int(va.shape[0])
+            res.append(r)
+        except Exception as e:
+            res.append({"error": err(e), "msg": str(e)[:160], "where": nessai_frames(e.__traceback__)[-1:] })
+    out["prep"] = res
     # the documented option list (what bilby / pycbc use to enumerate nessai's settings)
     try:
         from nessai.utils.settings import get_all_kwargs
@@ -332,22 +362,33 @@ def make_model(kind):
     from nessai.model import Model
 
     dims = 3 if kind == "gauss3" else 2
+    corner = kind == "corner2"
+    lo, hi = (0.0, 1.0) if corner else (-5.0, 5.0)
 
     class G(Model):
+        """gauss2 / gauss3: unit Gaussian in [-5, 5]^d.  corner2: uniform prior on the unit square, likelihood
+        exp(-(x + y) / 0.05) peaked in a corner, so a fair share of what a flow proposes lies outside the bounds
+        (whole batches are discarded when drawsize is small)."""
+
         def __init__(self):
             self.names = ["x", "y", "z"][:dims]
-            self.bounds = {n: [-5.0, 5.0] for n in self.names}
+            self.bounds = {n: [lo, hi] for n in self.names}
             self.points = 0
             self.cap = None
+            self.lo, self.hi = lo, hi
 
         def log_prior(self, x):
-            return np.log(self.in_bounds(x), dtype=float) - dims * np.log(10.0)
+            return np.log(self.in_bounds(x), dtype=float) - dims * np.log(hi - lo)
 
         def log_likelihood(self, x):
             self.points += int(np.size(x))
             if self.cap is not None and self.points > self.cap:
                 raise Cap(f"likelihood-evaluation cap {self.cap} exceeded")
             s = 0.0
+            if corner:
+                for n in self.names:
+                    s = s + x[n]
+                return -s / 0.05
             for n in self.names:
                 s = s + x[n] ** 2
             return -0.5 * s
@@ -355,13 +396,13 @@ def make_model(kind):
         def to_unit_hypercube(self, x):
             y = x.copy()
             for n in self.names:
-                y[n] = (x[n] + 5.0) / 10.0
+                y[n] = (x[n] - lo) / (hi - lo)
             return y
 
         def from_unit_hypercube(self, x):
             y = x.copy()
             for n in self.names:
-                y[n] = 10.0 * x[n] - 5.0
+                y[n] = (hi - lo) * x[n] + lo
             return y
 
     return G()
@@ -405,8 +446,11 @@ def run_one(job, outdir):
         state["draw_calls"] += 1
         if state["draws"] > draw_cap:
             raise Cap(f"proposal-draw cap {draw_cap} exceeded")
-        if state.get("stalled_now", 0) > stall_cap:
-            raise Cap(f"population loop made no progress for {stall_cap} consecutive passes")
+        # no-progress cap, measured in draws so that a small drawsize is not penalised: stall_cap passes of
+        # at least 50 draws each
+        if state.get("stalled_now", 0) > stall_cap and state.get("stalled_now", 0) * max(1, int(n)) > 50 * stall_cap:
+            raise Cap(f"population loop made no progress for {state['stalled_now']} consecutive passes "
+                      f"({state['stalled_now'] * int(n)} draws)")
 
     real_dlp = FlowProposal.draw_latent_prior
 
@@ -428,7 +472,7 @@ def run_one(job, outdir):
 
         def w(self, *a, **k):
             order = ["construct", "run-config", "sampling", "post-sampling", "done"]
-            if order.index(phase) > order.index(state["phase"]):
+            if state["phase"] in order and order.index(phase) > order.index(state["phase"]):
                 state["phase"] = phase
             return real(self, *a, **k)
 
@@ -448,6 +492,11 @@ def run_one(job, outdir):
         fs = FlowSampler(model, **kw)
         state["phase"] = "run-config"
         fs.run(**job.get("run_kwargs", {}))
+        state["phase"] = "done"
+        # documented methods of the finished sampler that a user calls after run()
+        for name, args in job.get("post_calls", []):
+            state["phase"] = "post-run:" + name
+            getattr(fs.ns, name)(*args)
         state["phase"] = "done"
         res["status"] = "completed"
     except Cap as e:
@@ -484,6 +533,8 @@ def run_one(job, outdir):
                 b = {"empty": "continue" in tg, "try": False, "acc": a1 - a0}
             if a1 == a0:
                 stats["stalled_passes"] += 1
+            if b["empty"]:
+                stats["empty_passes"] = stats.get("empty_passes", 0) + 1
             batches.append(b)
         complete = tr["how"] == "return"
         if not complete:
@@ -521,7 +572,7 @@ def run_one(job, outdir):
                     r["final_logZ"] = float(ns.final_log_evidence)
             names = model.names
             r["post_finite"] = bool(all(np.isfinite(post[n]).all() for n in names) and np.isfinite(post["logL"]).all())
-            r["post_in_bounds"] = bool(all(((post[n] >= -5) & (post[n] <= 5)).all() for n in names))
+            r["post_in_bounds"] = bool(all(((post[n] >= model.lo) & (post[n] <= model.hi)).all() for n in names))
             res["result"] = r
         except BaseException as e:
             res["status"] = "raised"
